@@ -1296,7 +1296,9 @@ int main(int argc, char** argv) {
 
   // ---------- polygon k-d tree: all multisets of n points of the 3x3 lattice x 3 input orders x all rectangles
   {
-    // n <= 8: linear scan; 9..17: one split level; >= 18: the `<= 8` leaf rule is straddled at the second level
+    // n <= 8: linear scan; 9..17: one split level; 18: the left half (9 points) is split again, the right half (8) is
+    // not; 19: both halves (9 + 9) are split again - the smallest size that reaches the second level on both sides
+    // (mutation M5 in findings/C14.md is invisible below 19)
     std::vector<int> sizes;
     if (asanQuick)
       sizes = {0, 1, 9};
@@ -1305,9 +1307,9 @@ int main(int argc, char** argv) {
     if (asanQuick) {
       // ASan quick subset: one split level only (the second level is in the seq-fast run and in thorough)
     } else {
-      sizes.push_back(18);
+      sizes.push_back(19);
       if (thorough)
-        for (int n : {13, 14, 15, 16, 17, 19, 20, 21}) sizes.push_back(n);
+        for (int n : {13, 14, 15, 16, 17, 18, 20, 21}) sizes.push_back(n);
     }
     std::vector<uint64_t> off = {0};
     for (int n : sizes) off.push_back(off.back() + nMulti(n, 9));
